@@ -139,7 +139,13 @@ impl Prop for C16 {
         let s2 = (prop::collection::vec(opt, 1..5), gen::flags_strategy("ims"), gen::raw_inputs(5, 6))
             .prop_map(|(v, flags, inputs)| AstCase { node: Node::Cat(v), flags, inputs: Inputs::Raw(inputs) })
             .boxed();
+        // literal patterns (flag q): only the empty literal matches the empty string; alphanumeric literals render
+        // identically as a regex and as a literal, so R1 on the AST is the oracle for both readings
+        let s3 = (prop::collection::vec(prop::sample::select(vec!['a', 'b', 'A']), 0..3), prop::sample::select(vec!["q", "qi", "qs", "qm", "qx", "iq"]), gen::raw_inputs(4, 5))
+            .prop_map(|(v, flags, inputs)| AstCase { node: if v.is_empty() { Node::Empty } else { Node::Cat(v.into_iter().map(Node::Lit).collect()) }, flags: flags.to_string(), inputs: Inputs::Raw(inputs) })
+            .boxed();
         vec![
+            Part { name: "literal-flag-q".into(), strategy: s3, cases: tier.pick(20_000, 200_000) },
             Part { name: "random".into(), strategy: s, cases: tier.pick(150_000, 3_000_000) },
             Part { name: "nullable-shapes".into(), strategy: s2, cases: tier.pick(150_000, 3_000_000) },
         ]
